@@ -4,8 +4,10 @@ copies /tmp/mut-<prop>/out/<k> to /verif/seeded/<prop>-<k>/ and writes meta.json
 import json, os, shutil, subprocess, sys
 prop, k, caught_by, initially = sys.argv[1:5]
 note = sys.argv[5] if len(sys.argv) > 5 else ""
-src = "/tmp/mut-%s/out/%s" % (prop, k)
-dst = "/verif/seeded/%s-%s" % (prop, k)
+import os as _os
+rnd = _os.environ.get("ROUND", "")
+src = "/tmp/mut%s-%s/out/%s" % (rnd, prop, k)
+dst = "/verif/seeded/%s%s-%s" % (prop, rnd, k)
 os.makedirs(dst, exist_ok=True)
 for f in os.listdir(src):
     if os.path.isfile(os.path.join(src, f)):
